@@ -23,7 +23,17 @@ package http3
 //   - Header().Add after the final status: the statement is silent (net/http ignores it, this
 //     writer serialises the map when it first has to), so every state the map went through from the
 //     final WriteHeader to the end of the handler is accepted for the final section;
-//   - trailer values set as the handler's last statements.
+//   - Header().Add("Trailer", "X-V") / Header().Set("X-V", "vv"): the handler's header map does not
+//     stay the same between the calls. In particular a handler may announce a FURTHER trailer at
+//     any time before the header is complete (an inner handler / a middleware after the outer one
+//     has sent its 1xx response): every section stands for the header map of ITS moment, so the
+//     declared trailers of the final section are the ones the Trailer field names when the final
+//     header is complete, whatever an earlier 1xx section already declared. A field whose name is
+//     declared at that moment is not a header field of the final section (its value belongs to the
+//     trailer section), a field set while its name is not declared is an ordinary header field of
+//     the sections written meanwhile. After the final status these two calls are map changes like
+//     Header().Add("X-B"): each state of the map stands for its own (header, declared trailers) pair;
+//   - trailer values set as the handler's last statements (X-V: if the handler announced it).
 //
 // The message is a valid net/http response for every sequence, so every section the writer
 // emits must be accepted by the parser, in the order and with the fields of the message, the
@@ -49,6 +59,8 @@ const (
 	c19OpW4k
 	c19OpFlush
 	c19OpAddHdr
+	c19OpAddTrailer
+	c19OpSetTrailerVal
 )
 
 // The alphabet of handler calls. 4096 = maxSmallResponseSize: the smallest Write that cannot be
@@ -56,6 +68,7 @@ const (
 var c19RspOps = []string{
 	"WriteHeader(103)", "WriteHeader(200)", "WriteHeader(404)", "WriteHeader(204)",
 	"Write(5 bytes)", "Write(4096 bytes)", "Flush()", "Header().Add(\"X-B\", \"b\")",
+	"Header().Add(\"Trailer\", \"X-V\")", "Header().Set(\"X-V\", \"vv\")",
 }
 
 var c19Body4k = []byte(strings.Repeat("x", maxSmallResponseSize))
@@ -84,6 +97,7 @@ func (c c19RspOpsCase) human() []string {
 // script plays the handler on h (the real writer's header map, or the model's copy); changed is
 // called after every change of the header map that follows the first call.
 func (c c19RspOpsCase) script(h http.Header, writeHeader func(int), write func([]byte), flush func(), changed func()) {
+	announcedV := false
 	h["Link"] = []string{"</s.css>; rel=preload"}
 	h["Date"] = []string{c19Date}
 	h["Content-Type"] = []string{"text/plain"} // no sniffing
@@ -109,7 +123,19 @@ func (c c19RspOpsCase) script(h http.Header, writeHeader func(int), write func([
 		case c19OpAddHdr:
 			h["X-B"] = append(append([]string(nil), h["X-B"]...), "b")
 			changed()
+		case c19OpAddTrailer:
+			// a further trailer is announced (a second Trailer value if the style has announced X-T)
+			h["Trailer"] = append(append([]string(nil), h["Trailer"]...), "X-V")
+			announcedV = true
+			changed()
+		case c19OpSetTrailerVal:
+			// a header field of the sections written while X-V is not announced, a trailer value otherwise
+			h["X-V"] = []string{"vv"}
+			changed()
 		}
+	}
+	if announcedV {
+		h["X-V"] = []string{"vv"}
 	}
 	switch c.Trailer {
 	case 1:
@@ -121,6 +147,7 @@ func (c c19RspOpsCase) script(h http.Header, writeHeader func(int), write func([
 
 type c19RspOpsFacts struct {
 	interim, lateInterim, lateFinal, lateAdd int
+	changedAfter1xx                          bool // the header map changed between a 1xx section and the final status
 	status                                   int
 	implicit                                 bool
 	byHandler                                bool // the header was complete before the handler returned
@@ -131,10 +158,14 @@ func (c c19RspOpsCase) expect() (sections []c19RspExpect, body string, facts c19
 	h := http.Header{}
 	complete := false
 	var final c19RspExpect
+	// the Trailer field of every state the header map had from the final status on: [0] belongs to
+	// final.fields, [1+j] to final.alts[j]
+	var announced [][]string
 	finish := func(status int, implicit bool) {
 		complete = true
 		facts.status, facts.implicit = status, implicit
 		final = c19SectionOf(status, c19RspHeaderFields(h, status), h)
+		announced = append(announced, append([]string(nil), h["Trailer"]...))
 	}
 	c.script(h,
 		func(status int) {
@@ -167,13 +198,29 @@ func (c c19RspOpsCase) expect() (sections []c19RspExpect, body string, facts c19
 			if complete {
 				facts.lateAdd++
 				final.alts = append(final.alts, c19RspHeaderFields(h, facts.status))
+				announced = append(announced, append([]string(nil), h["Trailer"]...))
+			} else if facts.interim > 0 {
+				facts.changedAfter1xx = true
 			}
 		})
 	facts.byHandler = complete
 	if !complete {
 		finish(http.StatusOK, true) // the server flushes when the handler returns
 	}
-	final.trailer = c19RspTrailerOf(h)
+	// the trailer section of a state: the fields ITS Trailer field announces, with the values the
+	// handler has set when it ends
+	trailerOf := func(trailerField []string) http.Header {
+		hk := h.Clone()
+		delete(hk, "Trailer")
+		if len(trailerField) > 0 {
+			hk["Trailer"] = trailerField
+		}
+		return c19RspTrailerOf(hk)
+	}
+	final.trailer = trailerOf(announced[0])
+	for _, a := range announced[1:] {
+		final.altTrailers = append(final.altTrailers, trailerOf(a))
+	}
 	return append(sections, final), body, facts
 }
 
@@ -187,6 +234,9 @@ func (f c19RspOpsFacts) history() string {
 	}
 	if f.lateFinal > 0 {
 		l = append(l, "second-final")
+	}
+	if f.changedAfter1xx {
+		l = append(l, "header-changed-after-1xx")
 	}
 	if f.lateAdd > 0 {
 		l = append(l, "header-added-after-final")
@@ -304,7 +354,7 @@ func c19RspOpsPart() explore.Part {
 			})
 			col.finish(rep)
 			outs.into(rep)
-			rep.Rule = "every sequence of handler calls over {WriteHeader(103), WriteHeader(200), WriteHeader(404), WriteHeader(204), Write(5 bytes), Write(4096 bytes), Flush(), Header().Add} up to the length bound x {GET, HEAD} x {no trailers, declared trailer, TrailerPrefix trailer}, each on a fresh real responseWriter followed by the server's Flush + flushTrailers; the stream is read back by the real RequestStream.ReadResponse + body Read (-> decodeTrailers) and compared with the message net/http's ResponseWriter contract assigns to the call sequence"
+			rep.Rule = "every sequence of handler calls over {WriteHeader(103), WriteHeader(200), WriteHeader(404), WriteHeader(204), Write(5 bytes), Write(4096 bytes), Flush(), Header().Add(X-B), Header().Add(Trailer, X-V) = a further trailer announced, Header().Set(X-V)} up to the length bound x {GET, HEAD} x {no trailers, declared trailer, TrailerPrefix trailer}, each on a fresh real responseWriter followed by the server's Flush + flushTrailers; the stream is read back by the real RequestStream.ReadResponse + body Read (-> decodeTrailers) and compared with the message net/http's ResponseWriter contract assigns to the call sequence"
 			rep.Bound = fmt.Sprintf("%d handler call sequences: 0<=len<=%d over %d calls x 2 methods x %d trailer styles", n, maxLen, len(c19RspOps), len(c19RspOpsTrailers))
 			for _, i := range []int{n - 1, n / 2, n / 3} {
 				rep.Samples = append(rep.Samples, c19RspOpsDecode(i).human())
